@@ -2,12 +2,16 @@
 Scipy sparse linear solver with SuperLU backend.
 """
 
+import logging
+
 import numpy as np
 
 from kvxopt import matrix
 
 from scipy.sparse import csc_matrix
 from scipy.sparse.linalg import spsolve, splu
+
+logger = logging.getLogger(__name__)
 
 
 class SciPySolver:
@@ -63,7 +67,14 @@ class SpSolve(SciPySolver):
 
         if self.factorize or self.new_A:
             A_csc = spmatrix_to_csc(A)
-            self.lu = splu(A_csc)
+            try:
+                self.lu = splu(A_csc)
+            except RuntimeError:
+                # SuperLU raises for an exactly singular matrix; signal it with NaN as the SuiteSparse solvers do
+                logger.error('Jacobian matrix is singular.')
+                self.lu = None
+                self.factorize = True
+                return np.full(A_csc.shape[0], np.nan)
 
             self.factorize = False
             self.new_A = False
